@@ -46,7 +46,8 @@ def check(ctx: Ctx):
     col.check_order_free(ctx)
     col.check_copy_total(ctx)
     col.check_statistics(ctx)
-    ctx.expect("STAT", 6)
+    col.check_trajectory_axis(ctx)
+    ctx.expect("STAT", 7)
     ctx.expect("COPYALL", 2)
     # merging members in place (out aliases the first operand) equals the out-of-place merge
     from . import c11
